@@ -1,6 +1,6 @@
-(** C06 (b) — calculateValidatorSetUpdates: with pairwise distinct reported addresses its output
-    is the same change set (up to order) whatever the order of the report, hence the validator set
-    consensus ends up with is the same; with a repeated address it is NOT (witness below). *)
+(** C06 (b) — calculateValidatorSetUpdates (as repaired by 530b44a): its output is the same
+    change set (up to order) whatever the order of the report, hence the validator set consensus
+    ends up with is the same; a report that repeats an address is always rejected. *)
 From Coq Require Import List ZArith NArith Bool Lia Permutation.
 From Kardia Require Import Base.Int64 C06.ModelValset C06.ProofsMap C06.ProofsValset.
 Import ListNotations.
@@ -58,17 +58,62 @@ Proof.
   intros a x y _. apply amap_del_comm.
 Qed.
 
+Lemma has_dup_false seen vals : has_dup_addr seen vals = false ->
+  NoDup (map v_addr vals) /\ (forall a, In a seen -> ~ In a (map v_addr vals)).
+Proof.
+  revert seen. induction vals as [|v t IH]; intros seen H; cbn [has_dup_addr map] in *.
+  - split; [constructor|intros a _ []].
+  - destruct (existsb (N.eqb (v_addr v)) seen) eqn:E; [discriminate|].
+    destruct (IH _ H) as [ND DJ]. split.
+    + constructor; [|exact ND]. apply (DJ (v_addr v)). now left.
+    + intros a Ha [Hv|Ht].
+      * subst a. assert (existsb (N.eqb (v_addr v)) seen = true) as X; [|congruence].
+        apply existsb_exists. exists (v_addr v). split; [exact Ha|apply N.eqb_refl].
+      * apply (DJ a); [now right|exact Ht].
+Qed.
+
+Lemma has_dup_true seen vals : has_dup_addr seen vals = true ->
+  ~ (NoDup (map v_addr vals) /\ (forall a, In a seen -> ~ In a (map v_addr vals))).
+Proof.
+  revert seen. induction vals as [|v t IH]; intros seen H [ND DJ]; cbn [has_dup_addr map] in *; [discriminate|].
+  destruct (existsb (N.eqb (v_addr v)) seen) eqn:E.
+  - apply existsb_exists in E. destruct E as (a & Ha & Ea). apply N.eqb_eq in Ea. subst a.
+    apply (DJ (v_addr v) Ha). now left.
+  - inversion ND as [|? ? NI ND']; subst. apply (IH _ H). split; [exact ND'|].
+    intros a [Ha|Ha] I; [subst a; exact (NI I)|]. apply (DJ a Ha). now right.
+Qed.
+
+Lemma has_dup_nodup vals : has_dup_addr [] vals = false <-> NoDup (map v_addr vals).
+Proof.
+  split.
+  - intros H. apply (has_dup_false [] vals H).
+  - intros ND. destruct (has_dup_addr [] vals) eqn:E; [|reflexivity].
+    exfalso. apply (has_dup_true [] vals E). split; [exact ND|intros a []].
+Qed.
+
+Lemma has_dup_perm vals vals' : Permutation vals vals' -> has_dup_addr [] vals = has_dup_addr [] vals'.
+Proof.
+  intros P.
+  destruct (has_dup_addr [] vals) eqn:E, (has_dup_addr [] vals') eqn:E'; try reflexivity; exfalso.
+  - apply has_dup_nodup in E'. assert (has_dup_addr [] vals = false) as X; [|congruence].
+    apply has_dup_nodup. eapply Permutation_NoDup; [apply Permutation_map, Permutation_sym, P|exact E'].
+  - apply has_dup_nodup in E. assert (has_dup_addr [] vals' = false) as X; [|congruence].
+    apply has_dup_nodup. eapply Permutation_NoDup; [apply Permutation_map, P|exact E].
+Qed.
+
 Lemma calculate_updates_perm last vals vals' :
-  NoDup (map v_addr vals) -> Permutation vals vals' ->
+  Permutation vals vals' ->
   Permutation (calculate_updates last vals) (calculate_updates last vals').
 Proof.
-  intros ND P.
-  assert (NoDup (map v_addr vals')) as ND' by (eapply Permutation_NoDup; [apply Permutation_map, P|exact ND]).
-  unfold calculate_updates.
+  intros P. unfold calculate_updates.
   destruct vals as [|v t].
   { apply Permutation_nil in P. subst. constructor. }
   destruct vals' as [|v' t'].
   { apply Permutation_sym, Permutation_nil in P. discriminate. }
+  rewrite <- (has_dup_perm _ _ P).
+  destruct (has_dup_addr [] (v :: t)) eqn:E; [exact P|].
+  pose proof (proj1 (has_dup_nodup _) E) as ND.
+  assert (NoDup (map v_addr (v' :: t'))) as ND' by (eapply Permutation_NoDup; [apply Permutation_map, P|exact ND]).
   rewrite (calc_scan_nodup (v :: t) _ ND), (calc_scan_nodup (v' :: t') _ ND').
   rewrite (del_all_perm _ _ _ P).
   apply Permutation_app_tail, filter_perm, P.
@@ -76,9 +121,28 @@ Qed.
 
 (** what ApplyBlock hands to consensus does not depend on the order of the report *)
 Lemma apply_reported_order_free s vals vals' :
-  NoDup (map v_addr vals) -> Permutation vals vals' -> apply_reported s vals = apply_reported s vals'.
+  Permutation vals vals' -> apply_reported s vals = apply_reported s vals'.
 Proof.
-  intros ND P. unfold apply_reported. apply update_order_free, calculate_updates_perm; assumption.
+  intros P. unfold apply_reported. apply update_order_free, calculate_updates_perm; assumption.
+Qed.
+
+(** a report that repeats an address is always rejected *)
+Lemma update_dup_rejected s cs : ~ NoDup (map v_addr cs) -> update s cs = UpdErr.
+Proof.
+  intros H. destruct cs as [|c t]; [exfalso; apply H; constructor|].
+  unfold update, update_with_change_set.
+  destruct (process_changes (c :: t)) as [e|ups rems] eqn:E.
+  - destruct e; try reflexivity. exfalso. unfold process_changes in E. now apply scan_err_not_ok in E.
+  - exfalso. apply H. destruct (process_ok_valid _ _ _ E) as ([N _] & _). exact N.
+Qed.
+
+Lemma apply_reported_dup_rejected s vals : ~ NoDup (map v_addr vals) -> apply_reported s vals = UpdErr.
+Proof.
+  intros H. unfold apply_reported, calculate_updates.
+  destruct vals as [|v t]; [exfalso; apply H; constructor|].
+  destruct (has_dup_addr [] (v :: t)) eqn:E.
+  - apply update_dup_rejected, H.
+  - exfalso. apply H, has_dup_nodup, E.
 Qed.
 
 (** ... and not on the order in which Go's map iteration emits the removals either: any
@@ -88,25 +152,19 @@ Lemma apply_changes_order_free s vals cs :
 Proof. intros P. unfold apply_reported. symmetry. apply update_order_free, P. Qed.
 
 (* ------------------------------------------------------------------ *)
-(** * the distinctness hypothesis is needed: a report that repeats an address *)
+(** * examples *)
 
 Definition ex_set : vset :=
   {| vs_vals := [ {| v_addr := 10; v_power := 10; v_prio := 0 |}; {| v_addr := 20; v_power := 5; v_prio := 0 |} ];
      vs_proposer := None; vs_total := 15 |}.
 Definition rep (a : N) (p : Z) : validator := {| v_addr := a; v_power := p; v_prio := 0 |}.
 
-(** [10:10, 10:7, 20:5]: the first entry equals the old power (no update, key deleted), the second
-    is then "new" — accepted as 10:7.  [10:7, 10:10, 20:5]: both become updates — duplicate
-    entry, rejected. *)
-Lemma dup_report_order_dependent :
-  Permutation [rep 10 10; rep 10 7; rep 20 5] [rep 10 7; rep 10 10; rep 20 5] /\
-  apply_reported ex_set [rep 10 10; rep 10 7; rep 20 5] <> apply_reported ex_set [rep 10 7; rep 10 10; rep 20 5] /\
+(** before fix 530b44a, [10:10, 10:7, 20:5] was accepted (as 10:7) and [10:7, 10:10, 20:5]
+    rejected; now both orders are rejected *)
+Example dup_report_rejected :
+  apply_reported ex_set [rep 10 10; rep 10 7; rep 20 5] = UpdErr /\
   apply_reported ex_set [rep 10 7; rep 10 10; rep 20 5] = UpdErr.
-Proof.
-  split; [apply perm_swap|]. split.
-  - vm_compute. discriminate.
-  - vm_compute. reflexivity.
-Qed.
+Proof. split; vm_compute; reflexivity. Qed.
 
 (** the hypotheses of the positive statement are satisfiable, on a report that changes a power,
     adds a validator and drops one *)
@@ -116,6 +174,6 @@ Example ex_reorder :
   (exists s', apply_reported ex_set [rep 30 4; rep 10 12] = UpdOk s' /\ map v_addr (vs_vals s') = [10%N; 30%N]).
 Proof.
   split; [repeat constructor; cbn; intuition lia|]. split.
-  - apply apply_reported_order_free; [repeat constructor; cbn; intuition lia|apply perm_swap].
+  - apply apply_reported_order_free. apply perm_swap.
   - eexists. split; [vm_compute; reflexivity|reflexivity].
 Qed.
